@@ -65,20 +65,41 @@ class Seam:
 
 
 class CountingWriter:
-    """Wraps a text stream opened for writing; numbers write / flush / close."""
+    """
+    Wraps a text stream opened for writing; numbers write / flush / close.
 
-    def __init__(self, seam, raw, path):
+    A failing flush or close is modelled adversarially, like a buffered file whose data never
+    reached the disk: the handle is released and the file is left empty (it was truncated when
+    it was opened with mode 'w'), so "the writer was opened" never implies "its data is safe".
+    """
+
+    def __init__(self, seam, raw, name, discard):
         self._seam = seam
         self._raw = raw
-        self._path = path
+        self._path = name
+        self._discard = discard
         self.closed_cleanly = False
 
     def write(self, data):
         self._seam._tick("write", self._path)
         return self._raw.write(data)
 
+    def _lose_data(self):
+        try:
+            self._raw.close()
+        except Exception:
+            pass
+        try:
+            self._discard()
+        except Exception:
+            pass
+
     def flush(self):
-        self._seam._tick("flush", self._path)
+        try:
+            self._seam._tick("flush", self._path)
+        except BaseException:
+            self._lose_data()
+            raise
         return self._raw.flush()
 
     def close(self):
@@ -87,11 +108,7 @@ class CountingWriter:
         try:
             self._seam._tick("close", self._path)
         except BaseException:
-            # a failing close still releases the handle (as an OS would), but its data may be lost
-            try:
-                self._raw.close()
-            except Exception:
-                pass
+            self._lose_data()
             raise
         self._raw.close()
         self.closed_cleanly = True
@@ -120,7 +137,7 @@ class SeamMemoryFS(MemoryFS, Seam):
             self._tick("open", f"{os.path.basename(path)} {mode}")
         f = MemoryFS.open(self, path, mode, *a, **kw)
         if self.counting and ("w" in mode or "a" in mode or "+" in mode):
-            return CountingWriter(self, f, os.path.basename(path))
+            return CountingWriter(self, f, os.path.basename(path), lambda: MemoryFS.writebytes(self, path, b""))
         return f
 
     # harness helpers (never counted)
@@ -158,7 +175,7 @@ class SeamNativeFS(NativeOSFS, Seam):
             self._tick("open", f"{os.path.basename(path)} {mode}")
         f = io.open(path, mode, *a, **kw)
         if self.counting and ("w" in mode or "a" in mode or "+" in mode):
-            return CountingWriter(self, f, os.path.basename(path))
+            return CountingWriter(self, f, os.path.basename(path), lambda: io.open(path, "wb").close())
         return f
 
 
